@@ -151,6 +151,11 @@ pub fn exec(f: &[&str]) -> Option<String> {
             Ok(v) => { let got = show_value(&v); if got == *want { "ok".into() } else { format!("MISMATCH got {}", got) } }
             Err(_) => "MISMATCH rejected".into(),
         },
+        // the text is malformed by construction: it must be rejected with an error
+        ["jreject", h] => match jsonb::parse_value(&unhex(h)?) {
+            Ok(v) => format!("MISMATCH accepted as {}", show_value(&v)),
+            Err(_) => "ok".into(),
+        },
         _ => return None,
     })
 }
